@@ -119,6 +119,8 @@ def echo_worker(analysis: Analysis, spec) -> dict:
 
 def load_worker(analysis: Analysis, ctxspec) -> list:
     """Paths of load_fw that hand out an image: which object is converted, over which address range."""
+    from ..values import ExtObj
+
     ctx = analysis.context(*ctxspec)
     it = analysis.new_interp(ctx)
     st = it.new_state()
@@ -138,13 +140,16 @@ def load_worker(analysis: Analysis, ctxspec) -> list:
             row["problems"].append(f"the returned value {row['ret']} is not the result of one tobinstr() call on the loaded object")
         else:
             c = conv[0]
-            if not loads or any(l.recv is None or c.recv is None or l.recv.key() != c.recv.key() for l in loads):
+            # IntelHex(source) with a file object or a file name loads it as Intel-HEX in the constructor
+            ctor_src = c.recv.args[0] if isinstance(c.recv, ExtObj) and c.recv.args else (c.recv.kwargs.get("source") if isinstance(c.recv, ExtObj) else None)
+            if (not loads and ctor_src is None) or any(l.recv is None or c.recv is None or l.recv.key() != c.recv.key() for l in loads):
                 row["problems"].append("the converted object is not the one the file was loaded into")
+            sources = [(l.args[0] if l.args else None) for l in loads] + ([ctor_src] if ctor_src is not None else [])
             for l in loads:
                 fmt = l.kwargs.get("format", l.args[1] if len(l.args) > 1 else None)
                 if l.name != "intelhex.IntelHex.loadhex" and not (isinstance(fmt, Const) and fmt.value == "hex"):
                     row["problems"].append("the file is not read as Intel-HEX (format != 'hex')")
-                src = l.args[0] if l.args else None
+            for src in sources:
                 from_path = src is not None and (src.key() == path.key() or "'path'" in repr(src.key()) or any(isinstance(o.args[0], V) and "'path'" in repr(o.args[0].key()) for o in opens if o.args))
                 if not from_path:
                     row["problems"].append("the loaded file is not the one named by the argument")
@@ -224,9 +229,69 @@ def single_source(analysis: Analysis, res: RuleResult) -> None:
         if isinstance(n, ast.Subscript) and isinstance(n.value, ast.Name) and n.value.id.startswith("fware") and isinstance(n.slice, ast.Constant) and isinstance(n.ctx, ast.Load):
             read.add(n.slice.value)
     res.add("C09-R3", "ota / record keys read are the keys written", read <= set(keys) and read >= {"data", "blocks", "crc"}, "mysensors/ota.py", f"read {sorted(read)} written {sorted(keys)}")
+    crc_rule(analysis, res)
+
+
+CRC_FACTORIES = ("Crc", "PredefinedCrc", "mkPredefinedCrcFun", "mkCrcFun")
+
+
+def crc_rule(analysis: Analysis, res: RuleResult) -> None:
+    """compute_crc(data) is the predefined 'modbus' CRC-16 of the whole of `data`: def-use over the function
+    and the module-level names it loads (object form update/hexdigest/crcValue, or the function form)."""
     crc = analysis.p.func("ota:compute_crc")
-    txt = unparse(crc.node)
-    res.add("C09-R3", "ota:compute_crc / uses the predefined 'modbus' CRC-16", "'modbus'" in txt, common.where(analysis, crc, crc.node), "crcmod.predefined.Crc('modbus')")
+    mod = analysis.p.modules["ota"]
+    w = common.where(analysis, crc, crc.node)
+    env = {}
+    for n in mod.tree.body:
+        if isinstance(n, ast.Assign) and len(n.targets) == 1 and isinstance(n.targets[0], ast.Name):
+            env[n.targets[0].id] = n.value
+    local = {}
+    for n in ast.walk(crc.node):
+        if isinstance(n, ast.Assign) and len(n.targets) == 1 and isinstance(n.targets[0], ast.Name):
+            local.setdefault(n.targets[0].id, []).append(n.value)
+
+    def factory(e):
+        """None: not a crcmod factory call; else the simplified algorithm name (or '?')."""
+        if not (isinstance(e, ast.Call) and unparse(e.func).split(".")[-1] in CRC_FACTORIES and ("crcmod" in unparse(e.func) or unparse(e.func).split(".")[-1] != "Crc")):
+            return None
+        if unparse(e.func).split(".")[-1] == "mkCrcFun" or ("predefined" not in unparse(e.func) and unparse(e.func).split(".")[-1] == "Crc"):
+            return "?"  # explicit polynomial form: not evaluated here
+        a = e.args[0] if e.args else next((k.value for k in e.keywords if k.arg == "crc_name"), None)
+        return "".join(c for c in a.value.lower() if c.isalnum()) if isinstance(a, ast.Constant) and isinstance(a.value, str) else "?"
+
+    def resolve(e):
+        seen = 0
+        while isinstance(e, ast.Name) and seen < 4:
+            seen += 1
+            vals = local.get(e.id) or ([env[e.id]] if e.id in env else [])
+            if len(vals) != 1:
+                return e
+            e = vals[0]
+        return e
+
+    algos = [factory(n) for n in ast.walk(crc.node) if factory(n) is not None]
+    algos += [factory(env[n.id]) for n in ast.walk(crc.node) if isinstance(n, ast.Name) and n.id in env and n.id not in local and factory(env[n.id]) is not None]
+    param = crc.node.args.args[0].arg if crc.node.args.args else "data"
+    fed = []
+    for n in ast.walk(crc.node):
+        if isinstance(n, ast.Call) and n.args:
+            tgt = n.func.value if isinstance(n.func, ast.Attribute) and n.func.attr == "update" else n.func
+            if factory(resolve(tgt)) is not None:
+                fed.append(unparse(n.args[0]) == param and len(n.args) == 1 and not n.keywords)
+    rets = [n.value for n in ast.walk(crc.node) if isinstance(n, ast.Return)]
+
+    def ret_ok(e):
+        e = resolve(e)
+        if isinstance(e, ast.Call) and unparse(e.func) == "int" and len(e.args) == 2 and unparse(e.args[1]) == "16" and isinstance(e.args[0], ast.Call) and isinstance(e.args[0].func, ast.Attribute) and e.args[0].func.attr == "hexdigest":
+            return factory(resolve(e.args[0].func.value)) is not None
+        if isinstance(e, ast.Attribute) and e.attr == "crcValue":
+            return factory(resolve(e.value)) is not None
+        if isinstance(e, ast.Call) and len(e.args) == 1 and unparse(e.args[0]) == param:
+            return factory(resolve(e.func)) is not None and unparse(resolve(e.func).func).split(".")[-1].startswith("mk")
+        return False
+
+    ok = bool(algos) and all(a == "modbus" for a in algos) and bool(fed) and all(fed) and bool(rets) and all(r is not None and ret_ok(r) for r in rets)
+    res.add("C09-R3", "ota:compute_crc / is the predefined 'modbus' CRC-16 of the whole of its argument", ok, w, f"algorithm(s) {sorted(set(algos))}, fed with `{param}` unchanged, result is the CRC value" if ok else f"algorithm(s) {sorted(set(algos))}; argument handed on unchanged: {fed}; returns {[unparse(r)[:50] if r is not None else None for r in rets]}")
 
 
 def _arith(node, env) -> Optional[int]:
